@@ -64,6 +64,14 @@ def gen_c03(ctx):
                     comp = rng.choice([226, 250])
                     yield line(c0, start(rng, cfg, login=False) + [op_get(rng, cfg, size=size, completion=comp)])
     ctx["scopes"].append("binary downloads: payload sizes %s x passive/active x EPSV-EPRT/PASV-PORT x IPv4/IPv6" % SIZES)
+    # the server drops the data connection abortively (RST) while bytes it wrote are still undelivered, and still says 226: the call
+    # must not return a positive result with a sink that holds only a prefix (after the failing call: disconnect, new session)
+    for mode in "pa":
+        for rfc in (0, 1):
+            for size in (100, 70000, 300000, 1500000):
+                cfg = Cfg(rng, "C03", mode=mode, rfc=rfc, ttype="I", ip=4); c0 = str(cfg)
+                yield line(c0, start(rng, cfg, login=False) + [op_get(rng, cfg, size=size, reset=True), "disc:0"] + start(rng, cfg, login=False) + [op_get(rng, cfg, size=100)])
+    ctx["scopes"].append("binary downloads whose data connection is reset by the server (undelivered bytes discarded) x 4 sizes x four methods")
     for _ in range(n_of(ctx, 300, 4000)):
         cfg = Cfg(rng, "C03", ttype="I"); c0 = str(cfg)
         ops = start(rng, cfg, login=rng.chance(1, 2))
@@ -110,11 +118,21 @@ def gen_c04(ctx):
                         cfg = Cfg(rng, "C04", mode=mode, rfc=rfc, ttype="I", ip=ip); c0 = str(cfg)
                         yield line(c0, start(rng, cfg, login=False) + [op_put(rng, cfg, verb=verb, size=size)])
     ctx["scopes"].append("binary uploads: payload sizes %s x STOR (all sizes) / STOU, APPE (3 sizes) x four methods x IPv4/IPv6" % SIZES)
+    # a source whose end is not sticky: whatever it would yield after its first empty read must not be asked for, let alone sent
+    for mode in "pa":
+        for rfc in (0, 1):
+            for size in (0, 1, 100, 3000, 8191, 8192, 8193, 10000, 16384, 20000):
+                for chop in ("-", "1", "7", "1000", "4096", "8191.1", "8192", "3000.100.50"):
+                    if chop in ("1", "7") and size > 3000:
+                        continue
+                    cfg = Cfg(rng, "C04", mode=mode, rfc=rfc, ttype="I", ip=4); c0 = str(cfg)
+                    yield line(c0, start(rng, cfg, login=False) + [op_put(rng, cfg, size=size, chop=chop, poison=True)])
+    ctx["scopes"].append("binary uploads from a source whose end is not sticky (it yields foreign bytes when asked again after its first empty read): 10 sizes x 8 chop patterns x four methods")
     for _ in range(n_of(ctx, 300, 4000)):
         cfg = Cfg(rng, "C04", ttype="I"); c0 = str(cfg)
         ops = start(rng, cfg, login=rng.chance(1, 2))
         for _ in range(rng.range(1, 3)):
-            ops.append(op_put(rng, cfg))
+            ops.append(op_put(rng, cfg, poison=rng.chance(1, 2)))
         yield line(c0, ops)
 
 # ---------------------------------------------------------------- C06 client stage
